@@ -52,6 +52,7 @@ fn build(gate: Arc<Gate>) -> App<Arc<Gate>> {
 
 fn start_tokio(threads: usize, gate: Arc<Gate>, bind_addr: SocketAddr, signal_first: bool) -> Started {
     let token = CancellationToken::new();
+    let gate2 = gate.clone();
     let app = build(gate).with_shutdown(token.clone());
     if signal_first {
         token.cancel();
@@ -63,7 +64,11 @@ fn start_tokio(threads: usize, gate: Arc<Gate>, bind_addr: SocketAddr, signal_fi
         let _ = done_tx.send(r);
         // `run` has returned; connection tasks spawned by it keep running on this runtime, as they would in a
         // program whose main goes on after `run`: keep the runtime alive long enough for them to finish
-        std::thread::sleep(Duration::from_secs(20));
+        // ... that is, until the scenario is over (at most 20 s): thousands of idle runtimes would use up the process's threads
+        let t = std::time::Instant::now();
+        while !gate2.finished.load(std::sync::atomic::Ordering::SeqCst) && t.elapsed() < Duration::from_secs(20) {
+            std::thread::sleep(Duration::from_millis(5));
+        }
         rt.shutdown_background();
     });
     Started { done: done_rx, signal: Box::new(move || token.cancel()) }
